@@ -29,9 +29,21 @@ def check(ctx):
         if (l.lo, l.hi) != (ZERO, dims):
             ctx.violation('R1.all_dimensions', where, 'not every dimension is transformed',
                           {'range': [T.pretty(l.lo), T.pretty(l.hi)]})
-        wu = l.updates.get('weight')
-        xu = l.updates.get('random_numbers')
-        if wu is None or xu is None or wu['kind'] != 'prod' or xu['kind'] != 'map':
+        xu = upd_by_loc(l, ('lv', f.params[1].id, ()))
+        prods = [u for u in l.updates.values() if u['kind'] == 'prod']
+        wu = None
+        for u in prods:
+            if u['final'] == s.ret:
+                wu = u
+        if wu is None and prods and all(T.occurs(s.ret, u['final']) for u in prods) and len(prods) > 1:
+            ctx.violation('R1.weight_product', where, 'the returned weight is assembled from %d separate running '
+                          'products instead of one running product of the per-dimension jacobian factor '
+                          '(R - L)*bins: the partial products (cell volume, number of cells) under- or overflow '
+                          'in many dimensions although the weight itself is of order one' % len(prods),
+                          {'returned': T.pretty(s.ret)[:300],
+                           'abstract_counterexample': 'float, 20 dimensions, 128 bins: prod(bins) = 128^20 overflows'})
+            return
+        if wu is None or xu is None or xu['kind'] != 'map':
             raise AnalysisBroken('weight product / coordinate map of vegas_icdf not recognised')
         if wu['init'] != ONE:
             ctx.violation('R1.weight_product', where, 'the weight does not start from 1',
